@@ -35,6 +35,13 @@ def w_hier(case):
                     'used in a hierarchical log-likelihood: %s: %s'
                     % (lab, type(e).__name__, e), 'expected': 'constructible',
                     'observed': repr(e), 'behaviour': 'ctor:' + type(e).__name__}]}
+    # (asking for names, in any form and any number of times, changes nothing)
+    pm_ = hl.get_population_model()
+    for _ in range(2):
+        pm_.get_parameter_names(exclude_dim_names=True)
+        pm_.get_parameter_names()
+        pm_.get_dim_names()
+        hl.get_parameter_names()
     n_ids = case['n_ids']
     nb = rp.n_bottom(case['spec'], n_ids)
     nt = rp.n_top(case['spec'], n_ids)
@@ -200,6 +207,24 @@ def build(tier, seed):
                 c = hier.make_case(spec, n_ids, seed)
                 c['extra_cov'] = True
                 cases.append(c)
+    # nobody is shifted: all covariates zero, or all covariate coefficients zero
+    # (the individuals still are separate individuals)
+    for spec in hier.structures(3, ['G', 'LNnc', 'P', 'H', 'Cov(G)', 'Cov(LNnc)',
+                                    'Cov(P)', 'Cov(TG)']):
+        if not rp.n_cov(spec):
+            continue
+        for n_ids in (2, 3):
+            for what in ('cov', 'beta'):
+                c = hier.make_case(spec, n_ids, seed)
+                if what == 'cov':
+                    c['cov'] = (0.0 * np.array(c['cov'])).tolist()
+                else:
+                    names_z = popbuild.build(spec, n_ids).get_parameter_names()
+                    nb_z = rp.n_bottom(spec, n_ids)
+                    for i_z, nm in enumerate(names_z):
+                        if 'Cov.' in nm:
+                            c['vec'][nb_z + i_z] = 0.0
+                cases.append(c)
     # names reset to defaults after user-given names (n_ids = 3: heterogeneous
     # blocks of several dimensions and individuals)
     for spec in hier.structures(3, kinds):
@@ -337,3 +362,7 @@ META = {
                   'whose entries are pairwise distinct, together with equality of the '
                   'name/ID tables. Trusted: ref.populations, ref.errors, ref.toy.',
 }
+META['level_text'] += (
+    ' Also: covariate models sharing one base object, scales fixed at zero, nobody '
+    'shifted (zero covariates / coefficients), covariates supplied to models that n'
+    'eed none, repeated name reads before evaluation.')
